@@ -57,6 +57,12 @@ OpAddTaxon(s, t) ==
     ELSE IF ~s.mut THEN Err(s, "ImmutableTaxonNamespaceError")
     ELSE Ok(Accession(s, t), <<>>)
 
+\* add_taxa(ts): add_taxon for each in turn; the first refusal ends the call (members are skipped silently)
+RECURSIVE AddTaxaF(_, _)
+AddTaxaF(s, ts) == IF ts = <<>> THEN Ok(s, <<>>)
+                   ELSE LET r == OpAddTaxon(s, Head(ts)) IN IF r.raised # "" THEN r ELSE AddTaxaF(r.st, Tail(ts))
+OpAddTaxa(s, ts) == AddTaxaF(s, ts)
+
 \* new_taxon(label): creates taxon object K+1
 OpNewTaxon(s, l) ==
     IF ~s.mut THEN Err(s, "ImmutableTaxonNamespaceError")
